@@ -723,6 +723,16 @@ class Gen:
         env.ints = [v for v in env.ints]
         body = self.stmt(env, r.randint(2, self.cfg.stmt_depth + 1))
         extra = []
+        if self.cfg.mode == 'bulk':
+            # a large procedure: several hundred simple statements, so that code offsets inside one procedure pass 1000 and 4096
+            n = r.choice([150, 300, 600])
+            bulk = []
+            for _ in range(n):
+                st = self.simple(env)
+                if st[0] in ('stop',) or (st[0] == 'syscall' and st[1] == self.callee('exit')):
+                    st = ('skip',)
+                bulk.append(st)
+            extra.append(('seq', bulk))
         if self.cfg.mode == 'deep':
             depth = r.choice([50, 400, 2000, 8000, 12000])
             v = env.local_assign[0] if env.local_assign else None
